@@ -922,6 +922,11 @@ func (e *MetaCDC) startInternal(info *meta.TaskInfo, ignoreUpdateState bool) err
 		err = store.UpdateTaskState(e.metaStoreFactory.GetTaskInfoMetaStore(ctx), info.TaskID, meta.TaskStateRunning, []meta.TaskState{meta.TaskStateInitial, meta.TaskStatePaused}, "")
 		if err != nil {
 			taskLog.Warn("fail to update the task meta", zap.Error(err))
+			// the task isn't running, so release the readers and the entity reference which have been registered above
+			if quitFunc, ok := replicateEntity.taskQuitFuncs.GetAndRemove(info.TaskID); ok {
+				quitFunc()
+				replicateEntity.refCnt.Dec()
+			}
 			return servererror.NewServerError(errors.WithMessage(err, "fail to update the task meta, task_id: "+info.TaskID))
 		}
 	}
@@ -1441,6 +1446,10 @@ func (e *MetaCDC) pauseTaskWithReason(taskID, reason string, currentStates []met
 		reason)
 	if err != nil {
 		log.Warn("fail to update task reason", zap.String("task_id", taskID), zap.String("reason", reason))
+		// a manual pause which can't be saved should not stop the task, or the stored state will say it is running
+		if len(currentStates) > 0 {
+			return err
+		}
 	}
 	e.cdcTasks.Lock()
 	cdcTask := e.cdcTasks.data[taskID]
